@@ -8,6 +8,10 @@ def e1meta(text):
 
 META = {
  "C01": e1meta("Every fork-join program of the harness grammar (<=3 created threads, 9 creation variants incl. attribute objects prepared from garbage storage and NULL id, return vs myth_exit, both join orders) is run under every schedule with <=2 (quick) / <=3 (thorough) deviations on 1-3 workers; the oracle counts invocations, compares joined values and a buffer written by the child. A coverage statement, not a sample."),
+ "C02": {"engine": "E2 unitmc + E1 mythmc",
+         "technique": "explicit-state model checking of the real run-queue code at memory-access granularity (compiler-inserted access callbacks, snapshot/restore DFS with a visited set) under SC and an x86-TSO store-buffer machine; plus deviation-bounded stateless exploration of the whole library on an 8-entry queue",
+         "note": "trusted base: the x86-TSO abstract machine of unitmc.c and the fence annotations (MYTH_VERIF_FENCE) in myth_mem_barrier_func.h; state = global image + store buffers + live coroutine stacks (over-fine, never merges distinct states); " + E1_NOTE,
+         "text": "Every load, store and atomic of the real myth_queue_* / myth_wsapi_runqueue_* code is a transition: ~1400 (quick) configurations of capacity, fill level (incl. both storage boundaries), owner program and 1-2 thief programs are each explored exhaustively under SC and under x86-TSO (all flush timings); at quiescence the multiset handed out + still queued must equal what was inserted. The whole-library part runs generated programs on an 8-entry queue so that both re-centring paths, yield re-insertion, wake-ups and a declining custom steal function occur under all schedules with <=K deviations."},
  "C03": e1meta("An assembly probe keeps per-thread patterns in all callee-saved registers and a 2 KiB stack array across every kind of switching call (yield, both creation orders, join, mutex, barrier, cond, uncond) while 2-3 probe threads interleave under all schedules with <=K deviations; the runtime also checks the ABI stack alignment at every hook, including inside switch callbacks. The coverage matrix switch-kind x resumed-on-same/other-worker must be complete or the check reports itself vacuous; thorough repeats everything on a -O2 build of the library."),
  "C04": e1meta("All interleavings with <=K deviations of 2-3 contenders doing lock/trylock/timedlock/unlock sequences on one mutex; oracle: occupancy witness, every lock call returns (deadlock verdict), EBUSY only if the mutex was busy during the call, bystander progress on 1 worker."),
  "C05": e1meta("Bounded-buffer, gate (broadcast), turnstile and stray-signal programs under all schedules with <=K deviations; oracle: determinate final counters, mutex-held witness after every wait, no thread left on a sleep queue, no deadlock verdict."),
@@ -24,7 +28,11 @@ META = {
 }
 NOT_APPLICABLE = {}
 ENGINES = [
- {"name": "E1 mythmc", "path": "engine/mythmc", "serves_properties": ["C01", "C03", "C20", "C04", "C05", "C06", "C07", "C08", "C09", "C12", "C13", "C14"],
+ {"name": "E2 unitmc", "path": "engine/unitmc", "serves_properties": ["C02", "C06", "C10"],
+  "kind_free_text": "explicit-state model checker for real code units: harness TU compiled with -fsanitize=thread instrumentation only, own __tsan_* callbacks make every access a transition; SC and x86-TSO (store buffers) machines; DFS with snapshots and visited set"},
+ {"name": "E3 seqmc", "path": "engine/seqmc", "serves_properties": ["C10", "C11", "C15", "C17", "C18", "C19", "C20"],
+  "kind_free_text": "bounded exhaustive enumeration of operation sequences / inputs / environment answers against reference models, real functions #included into unit harnesses"},
+ {"name": "E1 mythmc", "path": "engine/mythmc", "serves_properties": ["C01", "C02", "C03", "C20", "C04", "C05", "C06", "C07", "C08", "C09", "C12", "C13", "C14"],
   "kind_free_text": "deviation-bounded stateless model checker: token-passing scheduler behind the MYTH_VERIF hooks of the real library, explorer forking one child per schedule"},
 ]
 NOTES = ("./check <id> --tier quick|thorough builds the library from /repo's working tree with -DMYTH_VERIF, runs the components listed in engine/registry.py and writes evidence/<id>.json. "
